@@ -222,6 +222,15 @@ def main():
     os.environ['STANDIN_PIDLOG'] = str(log)          # stand-in helpers record their pids next to the script's records
     for k_, v_ in scen.get('env', {}).items():
         os.environ[k_] = str(v_)
+    if 'cd_scen' in scen:          # script of the stand-in clang_delta
+        (base / 'cd.json').write_text(json.dumps(scen['cd_scen']))
+        (base / 'cd.log').write_text('')
+        os.environ['CD_SCEN'] = str(base / 'cd.json')
+        os.environ['CD_LOG'] = str(base / 'cd.log')
+    for dotted, v_ in scen.get('class_consts', {}).items():      # e.g. a pass's own query timeout, shortened
+        import importlib
+        mod, cls, attr = dotted.rsplit('.', 2)
+        setattr(getattr(importlib.import_module(mod), cls), attr, v_)
     external = dict(scen.get('external', {}))
     for k, v in list(external.items()):
         if v and v.startswith('standin:'):
@@ -241,11 +250,18 @@ def main():
     state = {'tm': None}
 
     def do_run():
+        if scen.get('stdin_closed'):
+            # started without a standard input (`<&-`, cron, a daemon): Python then has sys.stdin = None
+            try:
+                os.close(0)
+            except OSError:
+                pass
+            sys.stdin = None
         try:
             with contextlib.redirect_stdout(buf), contextlib.redirect_stderr(buf):
                 tm = testing.TestManager(
                     statistics.PassStatistic(), str(script.name if scen.get('relative_script', True) else script), scen.get('timeout', 2),
-                    cfg.get('save_temps', False), list(test_cases), scen.get('N', 2), cfg.get('no_cache', False), True,
+                    cfg.get('save_temps', False), list(test_cases), scen.get('N', 2), cfg.get('no_cache', False), not cfg.get('keys_on', False),
                     cfg.get('silent', False), cfg.get('die', False), False, cfg.get('maxImp'), cfg.get('noGiveUp', False),
                     cfg.get('alsoInteresting'), cfg.get('startWith'), cfg.get('skipN'), 1.0)
                 state['tm'] = tm
